@@ -322,7 +322,9 @@ def r5_position_bookkeeping(ctx: Ctx) -> None:
 
 def r6_address_advance(ctx: Ctx) -> None:
     """a label after n bytes is the address n bytes further in the mapping, across bank ends (the C04.R5 obligation)"""
-    from .c04 import r5_formula_normal_form
+    from .c04 import r1_builtin_maps, r5_formula_normal_form
+
+    r1_builtin_maps(ctx)  # the bank tables the advance and the offset are computed from (labels vs where the bytes land, per mapping)
 
     r5_formula_normal_form(ctx)
 
